@@ -1585,5 +1585,8 @@ func (x *fnCtx) assumeSafe(st *State, c *Term) {
 	if x.con != nil && x.con.OnlyLayers != nil && !x.con.OnlyLayers["safety"] {
 		return
 	}
+	if x.con != nil && len(x.con.SkipKinds) > 0 {
+		return // some safety kinds are skipped: do not cut their failing paths
+	}
 	st.assume(c)
 }
